@@ -300,6 +300,9 @@ func step(f []string) (res string, info string) {
 
 func main() {
 	vh.Loop(func(f []string, line string) string {
+		if len(f) > 0 && f[0] == "vm" {
+			return runVM(f) + " | "
+		}
 		r, info := step(f)
 		return r + " | " + info
 	})
